@@ -17,6 +17,9 @@ OffCands(z, w) == {[k |-> "none", o |-> 0], [k |-> "z", o |-> 0], [k |-> "offset
                   \cup {[k |-> "offset", o |-> (o \div 60) * 60] : o \in AllOffsets(z)} \cup {[k |-> "offset", o |-> (o \div 60) * 60 + 60] : o \in AllOffsets(z)}
 FromString(w, oc, dis, oo) == last' = [op |-> "interpret", z |-> cur, w |-> w, oc |-> oc, dis |-> dis, oo |-> oo,
                                        out |-> Interpret(cur, w, oc.k, oc.o, dis, oo, TRUE)] /\ UNCHANGED cur
+\* the same string as a relativeTo option (RelativeTo::try_from_str): a second entry point with fixed options compatible / reject
+RelTo(w, oc) == last' = [op |-> "relto", z |-> cur, w |-> w, oc |-> oc, dis |-> "compatible", oo |-> "reject",
+                         out |-> Interpret(cur, w, oc.k, oc.o, "compatible", "reject", TRUE)] /\ UNCHANGED cur
 \* property bags: offsets of whole minutes only, never Z
 BagCands(z, w) == {c \in OffCands(z, w) : c.k # "z" /\ c.o % 60 = 0}
 FromBag(w, oc, dis, oo) == last' = [op |-> "bag", z |-> cur, w |-> w, oc |-> oc, dis |-> dis, oo |-> oo,
@@ -30,6 +33,7 @@ Next == /\ (OneStep => last = None)
            \/ \E t \in Instants, via \in Vias : View(t, via)
            \/ \E w \in IWalls, dis \in {"compatible", "reject"}, oo \in OffOpts : \E oc \in OffCands(cur, w) : FromString(w, oc, dis, oo)
            \/ \E w \in IWalls, dis \in {"compatible", "later"}, oo \in OffOpts : \E oc \in BagCands(cur, w) : FromBag(w, oc, dis, oo)
+           \/ \E w \in IWalls : \E oc \in OffCands(cur, w) : RelTo(w, oc)
 Spec == Init /\ [][Next]_vars
 
 \* every candidate maps back to the reading
@@ -48,7 +52,7 @@ DisLaw == (last.op = "fromLocal") =>
                       /\ (last.dis \in {"compatible", "later"} => Wall(last.z, last.out.val) = last.w + GapOf(last.z, last.w))
                       /\ (last.dis = "earlier" => Wall(last.z, last.out.val) = last.w - GapOf(last.z, last.w)))
 WallLaw == last.op = "wall" => last.out.val.w = last.t + last.out.val.off /\ last.out.val.off \in AllOffsets(last.z)
-InterpretLaw == last.op = "interpret" =>
+InterpretLaw == last.op \in {"interpret", "relto"} =>
   /\ (last.oc.k = "z" => last.out = Ok(last.w))
   /\ (last.oc.k = "offset" /\ last.oo = "use" => last.out = Ok(last.w - last.oc.o))
   /\ (last.oc.k = "offset" /\ last.oo = "ignore" => last.out = Disambiguate(last.z, last.w, last.dis))
